@@ -36,6 +36,8 @@ CONSTANTS MaxRounds,        \* losses of an established connection per behaviour
           DialErrorPermanent,          \* D27: TRUE = code as found
           KeepaliveOutlivesSession,    \* D26: TRUE = code as found (quit closed when the receive loop returns)
           FailedDialClearsConn,        \* D28: TRUE = code as found (t.conn = nil after a failed dial)
+          MaxRestarts,                 \* how often the application stops the manager and runs it again
+          StopDisarms,                 \* TRUE = a (seeded) variant in which a stopped manager is never re-armed
           Emit
 
 VARIABLES phase,     \* "init" | "up" | "lost" | "failed" | "stopped"
@@ -52,13 +54,15 @@ VARIABLES phase,     \* "init" | "up" | "lost" | "failed" | "stopped"
           closing,      \* stale keepalives whose ping failed and that are inside transport.Close()
           connNil,      \* the transport's connection is nil (failed dial, code as found)
           panic,
+          restarts,     \* Stop + Run again so far
+          disarmed,     \* (variant) the manager ignores Disconnected events
           hist
-vars == <<phase, loops, sessions, posts, conns, live, round, attempts, pendingDisc, kinds, smid, runReturned, stale, closing, connNil, panic, hist>>
-kavars == <<stale, closing, connNil, panic>>
+vars == <<phase, loops, sessions, posts, conns, live, round, attempts, pendingDisc, kinds, smid, runReturned, stale, closing, connNil, panic, restarts, disarmed, hist>>
+kavars == <<stale, closing, connNil, panic, restarts, disarmed>>
 
 Init == /\ phase = "init" /\ loops = 0 /\ sessions = 0 /\ posts = 0 /\ conns = 0 /\ live = 0 /\ round = 1 /\ attempts = 0
         /\ pendingDisc = 0 /\ kinds = <<>> /\ smid = FALSE /\ runReturned = FALSE
-        /\ stale = 0 /\ closing = 0 /\ connNil = FALSE /\ panic = FALSE
+        /\ stale = 0 /\ closing = 0 /\ connNil = FALSE /\ panic = FALSE /\ restarts = 0 /\ disarmed = FALSE
         /\ hist = <<[drop |-> "none", attempts |-> <<>>, resume |-> "accept"]>>
 
 Established(kind) == /\ sessions' = sessions + 1 /\ posts' = posts + 1 /\ live' = live + 1
@@ -79,11 +83,11 @@ Drop(how) == /\ phase = "up" /\ round <= MaxRounds /\ loops = 0 /\ pendingDisc =
                 ELSE phase' = "lost" /\ pendingDisc' = pendingDisc + 1
              \* the receive loop noticed the end of the session: intended = its keepalive is told to quit before the event is reported
              /\ stale' = IF KeepaliveOutlivesSession /\ ~(how = "graceful" /\ GracefulCloseBlocks) THEN stale + 1 ELSE stale
-             /\ UNCHANGED <<loops, sessions, posts, conns, kinds, smid, runReturned, closing, connNil, panic>>
+             /\ UNCHANGED <<loops, sessions, posts, conns, kinds, smid, runReturned, closing, connNil, panic, restarts, disarmed>>
 
 \* a Disconnected event reaches the StreamManager's handler: it starts a reconnect loop in the calling goroutine
 HandleDisc == /\ pendingDisc > 0 /\ phase \in {"lost", "up"}
-              /\ pendingDisc' = pendingDisc - 1 /\ loops' = loops + 1
+              /\ pendingDisc' = pendingDisc - 1 /\ loops' = IF disarmed THEN loops ELSE loops + 1
               /\ UNCHANGED <<phase, sessions, posts, conns, live, round, attempts, kinds, smid, runReturned, hist>> /\ UNCHANGED kavars
 
 \* one iteration of a reconnect loop fails; the loop backs off and tries again (or gives up on a permanent error)
@@ -97,14 +101,14 @@ AttemptFails(o) == /\ loops > 0 /\ phase = "lost" /\ attempts < MaxAttempts
                    \* a failed negotiation leaves a teardown reader behind; in the code as found it reports a disconnection
                    /\ pendingDisc' = IF TeardownEmitsDisconnected /\ o \in {"reset", "transient"} THEN pendingDisc + 1 ELSE pendingDisc
                    /\ connNil' = (o = "refuse" /\ FailedDialClearsConn)
-                   /\ UNCHANGED <<sessions, posts, live, round, kinds, smid, runReturned, stale, closing, panic>>
+                   /\ UNCHANGED <<sessions, posts, live, round, kinds, smid, runReturned, stale, closing, panic, restarts, disarmed>>
 
 AttemptOK(res) == /\ loops > 0 /\ phase \in {"lost", "up"}
                   /\ conns' = conns + 1 /\ loops' = loops - 1
                   /\ Established(IF smid /\ res = "accept" THEN "resume" ELSE "bind")
                   /\ hist' = [hist EXCEPT ![round].attempts = Append(@, "ok"), ![round].resume = res]
                   /\ connNil' = FALSE
-                  /\ UNCHANGED <<round, attempts, pendingDisc, runReturned, stale, closing, panic>>
+                  /\ UNCHANGED <<round, attempts, pendingDisc, runReturned, stale, closing, panic, restarts, disarmed>>
 
 \* ---- a stale keepalive (only in the code as found)
 \* its ticker fires: it pings whatever the transport holds
@@ -112,7 +116,7 @@ StalePing == /\ stale > closing /\ ~panic
              /\ IF connNil THEN panic' = TRUE /\ UNCHANGED closing                         \* nil dereference: the process is gone
                 ELSE IF phase = "lost" THEN closing' = closing + 1 /\ UNCHANGED panic        \* the dead connection: ping fails, Close() begins
                 ELSE UNCHANGED <<closing, panic>>                                           \* the new connection: one more whitespace
-             /\ UNCHANGED <<phase, loops, sessions, posts, conns, live, round, attempts, pendingDisc, kinds, smid, runReturned, stale, connNil, hist>>
+             /\ UNCHANGED <<phase, loops, sessions, posts, conns, live, round, attempts, pendingDisc, kinds, smid, runReturned, stale, connNil, restarts, disarmed, hist>>
 \* Close() has waited for the peer's stream end long enough: it closes the transport's CURRENT connection
 StaleClose == /\ closing > 0 /\ ~panic
               /\ closing' = closing - 1
@@ -120,11 +124,21 @@ StaleClose == /\ closing > 0 /\ ~panic
                  THEN /\ phase' = "lost" /\ live' = live - 1 /\ pendingDisc' = pendingDisc + 1  \* the re-established session is ended - by the client itself
                       /\ stale' = stale                                                       \* (and its keepalive is stale in turn)
                  ELSE stale' = stale - 1 /\ UNCHANGED <<phase, live, pendingDisc>>
-              /\ UNCHANGED <<loops, sessions, posts, conns, round, attempts, kinds, smid, runReturned, connNil, panic, hist>>
+              /\ UNCHANGED <<loops, sessions, posts, conns, round, attempts, kinds, smid, runReturned, connNil, panic, restarts, disarmed, hist>>
 \* the receive loop that hosted the reconnection returns: only now is its keepalive told to quit
 OldRecvReturns == /\ stale > closing /\ loops = 0 /\ pendingDisc = 0 /\ phase \in {"up", "failed"} /\ ~panic
                   /\ stale' = closing
-                  /\ UNCHANGED <<phase, loops, sessions, posts, conns, live, round, attempts, pendingDisc, kinds, smid, runReturned, closing, connNil, panic, hist>>
+                  /\ UNCHANGED <<phase, loops, sessions, posts, conns, live, round, attempts, pendingDisc, kinds, smid, runReturned, closing, connNil, panic, restarts, disarmed, hist>>
+
+\* the application stops the manager while the session is up and runs it again (same manager, same client): Run
+\* returns, the old session ends, the first connection of the new Run brings up a new one
+Restart(res) == /\ phase = "up" /\ loops = 0 /\ pendingDisc = 0 /\ stale = 0 /\ restarts < MaxRestarts /\ round <= MaxRounds
+                /\ restarts' = restarts + 1 /\ disarmed' = StopDisarms
+                /\ round' = round + 1 /\ attempts' = 0 /\ conns' = conns + 1
+                /\ sessions' = sessions + 1 /\ posts' = posts + 1
+                /\ kinds' = Append(kinds, IF smid /\ res = "accept" THEN "resume" ELSE "bind") /\ smid' = SM
+                /\ hist' = Append(hist, [drop |-> "restart", attempts |-> <<"ok">>, resume |-> res])
+                /\ UNCHANGED <<phase, loops, live, pendingDisc, runReturned, stale, closing, connNil, panic>>
 
 Stop == /\ loops = 0
         /\ \/ (phase = "up" /\ pendingDisc = 0 /\ round > MaxRounds)
@@ -134,6 +148,7 @@ Stop == /\ loops = 0
 
 Next == FirstConnect \/ (\E h \in Drops : Drop(h)) \/ HandleDisc \/ (\E o \in Outcomes : AttemptFails(o))
         \/ (\E r \in {"accept", "refuse"} : AttemptOK(r)) \/ Stop \/ StalePing \/ StaleClose \/ OldRecvReturns
+        \/ (\E r \in {"accept", "refuse"} : Restart(r))
 Spec == Init /\ [][Next]_vars /\ WF_vars(Next)
 
 \* ---------------------------------------------------------------- properties (C13)
